@@ -2,9 +2,9 @@ package main
 
 import (
 	"fmt"
-	"regexp"
 	"go/token"
 	"go/types"
+	"regexp"
 	"sort"
 	"strings"
 
@@ -1318,9 +1318,11 @@ func (c *Ctx) singleCallArg(p *ssa.Parameter, depth int) (string, bool) {
 // strings.Builder in the Lexer accumulates the text of one token; the next
 // token that uses it must start from an empty buffer, or it denotes the
 // concatenation of both. Typestate per lexer method, two states {clean, dirty}:
-//   entry: clean (inductive invariant);  Write*: dirty;  Reset: clean;
-//   a call of another lexer method that uses the buffer needs clean and leaves clean;
-//   every return that is not a failure (non-nil error => lexing stops, E-DISC) needs clean.
+//
+//	entry: clean (inductive invariant);  Write*: dirty;  Reset: clean;
+//	a call of another lexer method that uses the buffer needs clean and leaves clean;
+//	every return that is not a failure (non-nil error => lexing stops, E-DISC) needs clean.
+//
 // Base case: tokenize runs on a fresh Lexer (H-RESET's lexer-fresh) or resets
 // the buffer before anything else touches it.
 func init() { register("T-BUF", ruleScratchBuffer) }
